@@ -53,7 +53,7 @@ PROPS = {
     "C10": dict(lean=["GoatSpec.Properties.C10", "GoatSpec.Properties.Pools"], streams=["text-pass-raw", "text-patch-tokens", "text-patch-file"], e2e=["patch"],
                 trusted=["modelled, not verified: Go regexp engine on whole lines (tied exhaustively on small arrangements), go/parser+go/printer, astutil import editing, template rendering of the generated file"],
                 assumptions=["A2/A3 as for C02/C06; 'the project still compiles' is an end-to-end oracle (go build), not a theorem"]),
-    "C11": dict(lean=["GoatSpec.Properties.C11"], streams=[], e2e=["sequences"],
+    "C11": dict(lean=["GoatSpec.Properties.C11", "GoatSpec.Properties.C06", "GoatSpec.Properties.C10"], streams=[], e2e=["sequences"],
                 trusted=["modelled, not verified: git (commit/checkout/clean/status), go build, the regexp passes and the instrumenter below the item level (their own properties C01-C10 tie them); the abstract machine takes git's dirtiness and the diff's yield as inputs"],
                 assumptions=["user edits stay outside marker blocks; marker edits are valid (+goat:generate -> +goat:delete, +goat:insert on its own line at a statement boundary)"]),
     "C12": dict(lean=["GoatSpec.Properties.C12"], streams=[], e2e=["refusals"],
